@@ -66,6 +66,10 @@ def h_cond(cfg):
 
     step = [0]
     box = {'cons_step': None, 'cons_time': None, 'waiter': None}
+    # 'poll': no probe callbacks at all (the program's own processes stay the only subscribers); processing is observed by
+    # polling `processed` after every kernel step
+    poll = bool(cfg.get('poll'))
+    watched = []
 
     def probe(node):
         def cb(ev):
@@ -83,6 +87,14 @@ def h_cond(cfg):
         elif k == 'E':
             lf.ev = env.event()
             lf.fails = lf.spec[1] == 'fail'
+            lf.handled = len(lf.spec) > 2       # somebody else waits for this event and handles its failure
+            if lf.handled:
+                def catcher(lf=lf):
+                    try:
+                        yield lf.ev
+                    except Boom:
+                        pass
+                env.process(catcher())
 
             def helper(lf=lf, li=li):
                 yield env.timeout(num('e%d' % li))
@@ -96,7 +108,9 @@ def h_cond(cfg):
                 yield env.timeout(num('c%d' % li))
                 return lf.value
             lf.ev = env.process(child())
-        lf.ev.callbacks.insert(0, probe(lf))
+        if not poll:
+            lf.ev.callbacks.insert(0, probe(lf))
+        watched.append(lf)
 
     def build(node):
         if node.kind == 'leaf':
@@ -111,8 +125,9 @@ def h_cond(cfg):
         else:
             node.ev = evs[0] | evs[1]
         node.cons_step, node.cons_time = step[0], env.now
-        if node.ev.callbacks is not None:
+        if node.ev.callbacks is not None and not poll:
             node.ev.callbacks.append(probe(node))
+        watched.append(node)
         return node.ev
 
     def builder():
@@ -130,7 +145,13 @@ def h_cond(cfg):
     crash = None
     try:
         while env.peek() != INF:
-            env.step()
+            try:
+                env.step()
+            finally:
+                if poll:
+                    for x in watched:
+                        if x.proc_step is None and x.ev is not None and x.ev.processed:
+                            x.nfired, x.proc_step, x.proc_time, x.ok = 1, step[0], env.now, x.ev.ok
             step[0] += 1
             if step[0] > 400:
                 fail('no-hang')
@@ -207,6 +228,8 @@ def h_cond(cfg):
 
     def absorbed(x):
         p = parent.get(id(x))
+        if x.kind == 'leaf' and getattr(x, 'handled', False):
+            return True                         # another process waits for this event and catches its failure
         if x is root:
             return True                         # the builder process waits on the root and catches
         if p is None or cs is None:
@@ -268,6 +291,8 @@ def h_cond(cfg):
                 check('c05.waiter-gets-operand-exception', w[0] == 'exc' and type(w[1]) is Boom and
                       eq(w[1].args[0], src.value))
                 cover('failed-before-met')
+                if src.proc_step is not None and cs is not None and src.proc_step < cs:
+                    cover('failed-operand-processed-at-construction')
             else:
                 check('c05.waiter-gets-value', w[0] == 'ok' and isinstance(w[1], ConditionValue))
                 if w[0] == 'ok' and isinstance(w[1], ConditionValue):
@@ -281,7 +306,13 @@ def h_cond(cfg):
                           all(a is b.ev for a, b in zip(keys, exp)), ([lf.idx for lf in exp], len(keys)))
                     if len(keys) == len(exp):
                         for lf in exp:
-                            check('c05.value-maps-leaf-to-its-value', eq(cv[lf.ev], lf.value), lf.idx)
+                            if lf.ok is False:
+                                # a (handled) operand that failed after the condition was decided: its value is its exception
+                                got = cv[lf.ev]
+                                check('c05.value-maps-leaf-to-its-value', type(got) is Boom and eq(got.args[0], lf.value), lf.idx)
+                                cover('failed-operand-in-value')
+                            else:
+                                check('c05.value-maps-leaf-to-its-value', eq(cv[lf.ev], lf.value), lf.idx)
                         td = cv.todict()
                         check('c05.todict', len(td) == len(exp))
                     if len(exp) < len(uleaves(root)):
@@ -343,6 +374,7 @@ def VIOL_KEY(cfg):
 
 
 T, P, EO, EF = ['T'], ['P'], ['E', 'ok'], ['E', 'fail']
+EH = ['E', 'fail', 'handled']
 
 
 def gen_trees(rng, count):
@@ -415,6 +447,8 @@ def jobs(tier, seed):
         # depth 3 with partial progress at the deepest level when the root is met
         ['or', ['or', ['and', T, T], T], T], ['any', ['all', ['any', T, T], T], T],
     ]
+    # an operand whose failure somebody else handles: it may already be processed (failed) when the condition is built
+    trees += [['all', EH, T], ['or', EH, T], ['and', P, EH], ['or', ['and', EO, EH], T]]
     # one event filling several operand slots (directly, and through nested conditions)
     R0 = ['R', 0]
     trees += [['all', T, R0], ['and', EO, R0], ['all', T, EO, R0], ['any', T, R0], ['all', ['any', T, T], R0],
@@ -435,6 +469,9 @@ def jobs(tier, seed):
     for ti, tr in enumerate(trees):
         js.append({'harness': 'cond', 'cfg': {'tree': tr, 'sorts': ('int', 'real', 'mixed')[ti % 3]},
                    'weight': 5 ** str(tr).count("'T'") * 3})
+        if ti % 2 == 0 or tier != 'quick':
+            js.append({'harness': 'cond', 'cfg': {'tree': tr, 'sorts': ('real', 'mixed', 'int')[ti % 3], 'poll': True},
+                       'weight': 5 ** str(tr).count("'T'") * 3})
     js.append({'harness': 'misc', 'cfg': {'what': 'mix'}})
     js.append({'harness': 'misc', 'cfg': {'what': 'empty'}})
     return js
@@ -446,7 +483,7 @@ META = {
     'required_labels': ['c05.trigger-instant', 'c05.fires-when-predicate-first-holds', 'c05.outcome',
                         'c05.waiter-instant', 'c05.value-keys-in-operand-order', 'c05.value-maps-leaf-to-its-value',
                         'c05.waiter-gets-operand-exception', 'c05.unhandled-late-failure-raises', 'c05.empty-immediate'],
-    'required_covers': ['nontrivial', 'met-at-construction', 'partial-value', 'failed-before-met', 'late-failure-crash',
+    'required_covers': ['failed-operand-processed-at-construction', 'nontrivial', 'met-at-construction', 'partial-value', 'failed-before-met', 'late-failure-crash',
                         'mixed-refused', 'empty', 'shared-operand'],
     'bounds': {'quick': '20 condition trees (AllOf, AnyOf, &, |; depth <= 2, <= 3 leaves) over timeouts, shared events succeeded or '
                         'failed by helpers, child processes, one event in several operand slots; construction instant, completion instants and values symbolic',
